@@ -104,7 +104,13 @@ func c02Open(fs c02FS, m *c02Model, which string, nflags int) *c02H {
 		verifTag(which, c02FlagNames[k])
 	}
 	flag := c02FlagSets[k]
-	f, err := fs.OpenFile("f", flag, 0)
+	perm := hackpadfs.FileMode(0)
+	if c02Fresh {
+		flag |= hackpadfs.FlagCreate
+		perm = 0644
+		c02Fresh = false
+	}
+	f, err := fs.OpenFile("f", flag, perm)
 	verifAssert(err == nil, "OpenFile of an existing regular file failed")
 	h := &c02H{f: f, app: flag&hackpadfs.FlagAppend != 0}
 	switch {
@@ -337,10 +343,19 @@ func c02Setup() (c02FS, *c02Model) {
 	verifAssume(l >= 0)
 	verifAssume(l <= verifParam("L"))
 	content := verifBytes("data", l)
+	c02Fresh = false
+	if verifParam("FRESH") != 0 && l == 0 && verifChoice("fresh", 2) == 1 {
+		// the file does not exist yet: the first handle creates it (O_CREATE added to its flags)
+		verifTag("file", "created-by-the-open")
+		c02Fresh = true
+		return fs, &c02Model{}
+	}
 	verifAssert(hackpadfs.WriteFullFile(fs, "f", content, 0644) == nil, "WriteFullFile failed")
 	m := &c02Model{data: append([]byte{}, content...)}
 	return fs, m
 }
+
+var c02Fresh bool
 
 // c02Prime puts the handle into one of its reachable hidden states before the step.
 func c02Prime(m *c02Model, h *c02H, which string) {
